@@ -129,7 +129,10 @@ def fourier_shift_expand(
     array: ArrayLike, positions: ArrayLike, expand_dim: bool = True
 ) -> ArrayLike:
     """Fourier-shift array by flat array of positions."""
-    phase = fourier_translation_operator(positions, array.shape, expand_dim, dtype=array.dtype)
+    # the ramp is complex: it takes the array's dtype only when that dtype is complex (cast to a
+    # real dtype it would lose its imaginary part, leaving cos(2 pi k s): no translation at all)
+    ramp_dtype = array.dtype if af.is_complex(array) else None
+    phase = fourier_translation_operator(positions, array.shape, expand_dim, dtype=ramp_dtype)
     fourier_array = af.fft2(array)
     shifted_fourier_array = fourier_array * phase
     shifted_array = af.ifft2(shifted_fourier_array)
